@@ -7,6 +7,7 @@ require (
 	github.com/opencontainers/go-digest v1.0.0
 	github.com/tonistiigi/fsutil v0.0.0
 	golang.org/x/sys v0.11.0
+	google.golang.org/protobuf v1.31.0
 )
 
 require (
@@ -16,7 +17,6 @@ require (
 	github.com/sirupsen/logrus v1.8.1 // indirect
 	github.com/tonistiigi/dchapes-mode v0.0.0-20250318174251-73d941a28323 // indirect
 	golang.org/x/sync v0.1.0 // indirect
-	google.golang.org/protobuf v1.31.0 // indirect
 )
 
 replace github.com/tonistiigi/fsutil => /repo
